@@ -351,9 +351,10 @@ def analyse(res, name, out, findings, model=True, oracle_prefixes=(), as_props=(
                     res.corr_mismatch += 1
                     hit = [pfx for pfx in oracle_prefixes if ops[i].startswith(pfx.split("=>")[0])]
                     if hit and "=>" in hit[0]:
-                        # an ENCODER op whose Lean model is proved equal to the specification's bits
-                        # (e.g. C20 gorilla_is_spec): the op with the implementation's bytes is a
-                        # concrete input on which the implementation is not bit-exact.
+                        # an op whose Lean model is PROVED equal to the specification (encoders: C20
+                        # gorilla_is_spec, uvc_is_spec_table; the bit reader: bitsreader_refines_spec -
+                        # what is read is the bits of the buffer): the op with the implementation's
+                        # answer is a concrete input on which the implementation is not bit-exact.
                         sig = hit[0].split("=>")[1]
                         res.violation("impl-violation", sig,
                                       "case %s: op %s: implementation=%s | specification (model)=%s" %
